@@ -21,7 +21,11 @@ def oracle (prop callee : String) (src : Dyn) (impl : Outcome Dyn) : Option Stri
   if prop == "C09" then
     match intOfCaster? callee with
     | some t => CastSpec.intCastViolation t src impl
-    | none => none
+    | none =>
+      -- cast.To(sample of an integer type, v): the same statement through the dispatcher
+      match promised callee with
+      | some (.int t) => CastSpec.intCastViolation t src impl
+      | _ => none
   else if prop == "C10" then
     match promised callee with
     | some .none => none
